@@ -62,7 +62,7 @@ def check(run):
             for n in ast.walk(loop):
                 if isinstance(n, ast.Call):
                     mc = sched.method_call(n)
-                    if mc and mc[1] == "append" and mc[0] != deq and n.args and isinstance(n.args[0], ast.Tuple):
+                    if mc and mc[1] in ("append", "appendleft") and mc[0] != deq and n.args and isinstance(n.args[0], ast.Tuple):     # order is fixed by R6
                         moved.add(mc[0])
         res = Interp(sched.CountDomain("exit"), run.lat).run(f.node)
         run.paths += len(res)
